@@ -596,7 +596,7 @@ func main() {
 	t := trace.Create(*out)
 	defer func() { // after the trace has been flushed
 		if w.srv != nil {
-			w.srv.Stop()
+			w.srv.Abandon()
 		}
 	}()
 	defer t.Close()
